@@ -103,6 +103,18 @@ func (st *State) Convert(v *IntV, w int, signed bool) *IntV {
 		r := &IntV{W: w, Signed: signed, T: st.TermOf(v)}
 		return r
 	}
+	// relational facts may still bound the value (e.g. x > y  =>  x - y >= 1)
+	if v.T != nil && !v.T.IsConst() {
+		tl, th := typeRange(w, signed)
+		ge, k1 := st.Decide(">=", v, mkConst(tl, v.W, v.Signed))
+		le, k2 := true, true
+		if hi > th {
+			le, k2 = st.Decide("<=", v, mkConst(th, v.W, v.Signed))
+		}
+		if k1 && k2 && ge && le {
+			return &IntV{W: w, Signed: signed, T: st.TermOf(v)}
+		}
+	}
 	// reinterpretation / truncation: bit view
 	src := st.BitsOf(v)
 	out := make([]Bit, w)
